@@ -292,3 +292,126 @@ def replay_length(part_sizes, model):
                 want += math.hypot(p[i + 1][0] - p[i][0], p[i + 1][1] - p[i][1])
     bad = not (abs(got - want) <= 1e-9 * max(1.0, abs(want)))
     return bad, {'parts': parts, 'length': got, 'expected': want}
+
+
+# ------------------------------------------------------------------------------------------------ float32 coordinate buffers
+def q_area_f32(ring_sizes, timeout=300, seed=0, bnd=B24, solve=True):
+    """compute_area on a float32 coordinate buffer (values.F32 mode): numba types float32 (op) float32 as float32, so the
+    differences and products of the shoelace terms are rounded to 24 significant bits before they reach the float64
+    accumulator.  Integer coordinates |c| <= bnd (exactly representable in float32); exact multiplication.  With no
+    float32-typed arithmetic in the symbolic run the encoding is the float64 one (`reduced`)."""
+    t0 = time.time()
+    values.F32.update(on=True, rounded=0, defs=[])
+    try:
+        it = mk()
+        rings = build_rings(ring_sizes)
+        flat = [v for r in rings for v in r]
+        offs = [0]
+        for r in rings:
+            offs.append(offs[-1] + 2 * len(r))
+        arr = np.empty(2 * len(flat), dtype=object)
+        for i, v in enumerate(flat):
+            arr[2 * i], arr[2 * i + 1] = Num(v[0], False, 0, True), Num(v[1], False, 0, True)
+        a = Num.lift(it.call(it.func(MEAS, 'compute_area'), [arr, np.array(offs, dtype=np.uint32)]))
+    finally:
+        defs = values.F32['defs']
+        values.F32.update(on=False, defs=None)
+    rounded = values.F32['rounded']
+    extra = {'f32_typed_operations': rounded, 'bound': bnd}
+    if rounded == 0 and not solve:
+        return {'status': 'unsat', 'reduced': True, 'solver_s': 0.0, 'queries': 0, 'formula_size': 1, 'encoded': it.encoded, 'symex_s': round(time.time() - t0, 2),
+                'detail': 'no float32-typed arithmetic in the symbolic run: the encoding is the float64 one, decided by the float64 obligation of this structure', **extra}
+    want2 = z3.Sum([shoelace2(r) for r in rings if len(r) >= 3] + [z3.IntVal(0)])
+    allv = list({str(t): t for r in rings for v in r for t in v}.values())
+    s = z3.Solver()
+    for v in allv:
+        s.add(v >= -bnd, v <= bnd)
+    s.add(*defs)
+    s.add(z3.Or(2 * toreal(a.v) != toreal(want2), tz(wrapb(a.nan))))
+    st, m, dt = z3_check(s, timeout, seed)
+    out = {'status': st, 'solver_s': round(dt, 3), 'formula_size': formula_size(s), 'encoded': it.encoded, 'queries': 1, 'symex_s': round(time.time() - t0 - dt, 2), **extra}
+    if m is not None:
+        out['model'] = model_ints(m, allv)
+    return out
+
+
+def replay_area_f32(ring_sizes, model):
+    """real PolygonArray(float32).area (array and scalar forms) against the exact shoelace value"""
+    from fractions import Fraction
+    import spatialpandas.geometry as sg
+    rings = [[(int(model.get(f'r{ri}x{i}', 0)), int(model.get(f'r{ri}y{i}', 0))) for i in range(m)] for ri, m in enumerate(ring_sizes)]
+    closed = [r + [r[0]] for r in rings if r]
+    want = float(sum((Fraction(sum(r[i][0] * r[i + 1][1] - r[i + 1][0] * r[i][1] for i in range(len(r) - 1)), 2) for r in closed if len(r) >= 3), Fraction(0)))
+    arr = sg.PolygonArray([[[c for v in r for c in v] for r in closed]], dtype='float32')
+    got = {'array': float(arr.area[0]), 'scalar': float(arr[0].area)}
+    wit = {'kind': 'polygon', 'dtype': 'float32', 'rings': closed, 'got': got, 'expected': want}
+    return any(v != want for v in got.values()), wit
+
+
+def q_length_f32(timeout=300, seed=0, bnd=B24, solve=True):
+    """compute_line_length on a float32 buffer holding one axis-parallel segment (y0 == y1): the float32 difference is
+    rounded, its square and the sum are float32, sqrt(float32) is float32.  Stated restriction: the float32-rounded extent
+    is a power of two (its square, the sum and the root are then exact: instance of sqrt_uf(t*t) == |t|); integer
+    coordinates |c| <= bnd.  Oracle: the length is |x1 - x0| exactly."""
+    t0 = time.time()
+    values.F32.update(on=True, rounded=0, sum_exp=51, prod_exp=51, defs=[])
+    try:
+        it = mk()
+        x0, y0, x1, y1 = [z3.Int(n) for n in ('r0x0', 'r0y0', 'r0x1', 'r0y1')]
+        arr = np.empty(4, dtype=object)
+        for i, v in enumerate((x0, y0, x1, y1)):
+            arr[i] = Num(v, False, 0, True)
+        r = Num.lift(it.call(it.func(MEAS, 'compute_line_length'), [arr, np.array([0, 4], dtype=np.uint32)]))
+    finally:
+        defs = values.F32['defs']
+        values.F32.update(on=False, sum_exp=25, prod_exp=50, defs=None)
+    rounded = values.F32['rounded']
+    extra = {'f32_typed_operations': rounded, 'bound': bnd}
+    if rounded == 0 and not solve:
+        return {'status': 'unsat', 'reduced': True, 'solver_s': 0.0, 'queries': 0, 'formula_size': 1, 'encoded': it.encoded, 'symex_s': round(time.time() - t0, 2),
+                'detail': 'no float32-typed arithmetic in the symbolic run: the encoding is the float64 one', **extra}
+    s = z3.Solver()
+    for v in (x0, y0, x1, y1):
+        s.add(v >= -bnd, v <= bnd)
+    s.add(y0 == y1)
+    s.add(*defs)
+    dx = z3.Int('dx32')
+    s.add(dx == (values.rnd32_int(x1 - x0, 51) if rounded else (x1 - x0)))
+    sq = dx * dx
+    if rounded:
+        # stated restriction: the float32 extent is a power of two (then its square, the sum and the square root are exact)
+        s.add(z3.Or(*[z3.Or(dx == (1 << k), dx == -(1 << k)) for k in range(0, 26)]))
+    # sqrt axiom instances for every sqrt_uf application in the result
+    apps = []
+
+    def walk(t, seen=set()):
+        if t.get_id() in seen:
+            return
+        seen.add(t.get_id())
+        if z3.is_app(t) and t.decl().name() == 'sqrt_uf':
+            apps.append(t)
+        for c in t.children():
+            walk(c)
+    rv = toreal(r.v)
+    walk(rv)
+    absdx = z3.If(dx >= 0, dx, -dx)
+    for a_ in apps:
+        s.add(z3.Implies(a_.arg(0) == z3.ToReal(sq), a_ == z3.ToReal(absdx)))
+    want = z3.If(x1 >= x0, x1 - x0, x0 - x1)
+    s.add(z3.Or(tz(wrapb(r.nan)), rv != z3.ToReal(want)))
+    st, m, dt = z3_check(s, timeout, seed)
+    out = {'status': st, 'solver_s': round(dt, 3), 'formula_size': formula_size(s), 'encoded': it.encoded, 'queries': 1, 'symex_s': round(time.time() - t0 - dt, 2),
+           'sqrt_applications': len(apps), **extra}
+    if m is not None:
+        out['model'] = model_ints(m, [x0, y0, x1, y1])
+    return out
+
+
+def replay_length_f32(model):
+    import spatialpandas.geometry as sg
+    c = [int(model.get(n, 0)) for n in ('r0x0', 'r0y0', 'r0x1', 'r0y1')]
+    want = float(abs(c[2] - c[0])) if c[1] == c[3] else None
+    arr = sg.LineArray([c], dtype='float32')
+    got = {'array': float(arr.length[0]), 'scalar': float(arr[0].length)}
+    wit = {'kind': 'line', 'dtype': 'float32', 'coordinates': c, 'got': got, 'expected': want}
+    return want is not None and any(v != want for v in got.values()), wit
